@@ -1,6 +1,7 @@
 """Interpreter for the edit programs of spec/Mutate.tla: applies a program (list of [slot, kind, arg, fix]) to a seed object.
 TLV objects are edited on their tree (independent DER reader/writer, nothing from the library); other formats on byte positions."""
-import copy
+import copy, sys
+sys.setrecursionlimit(20000)
 
 SLOTMAX = 11
 
@@ -134,6 +135,9 @@ def apply_tree(seed, prog):
             if parent is None and len(roots) == 1: return None
             del sibs[idx]
         elif kind == "dup": sibs.insert(idx, copy.deepcopy(node))
+        elif kind == "rep":
+            if len(encode(node, True)) * arg > 60000: return None
+            for _ in range(arg): sibs.insert(idx, copy.deepcopy(node))
         elif kind == "swap":
             if idx + 1 >= len(sibs): return None
             sibs[idx], sibs[idx + 1] = sibs[idx + 1], sibs[idx]
@@ -192,6 +196,7 @@ def apply_bytes(seed, prog, text=False):
         elif kind == "trunc": b = b[:p + arg]
         elif kind == "drop": del b[p:p + 4]
         elif kind == "dup": b[p:p] = b[p:p + 16]
+        elif kind == "rep": b[p:p] = bytes(b[p:p + 60]) * arg if text or arg <= 80 else bytes(b[p:p + 60]) * 80
         elif kind == "swap":
             if p + 8 > len(b): return None
             b[p:p + 8] = b[p + 4:p + 8] + b[p:p + 4]
@@ -202,3 +207,143 @@ def apply_bytes(seed, prog, text=False):
         else:
             return None
     return bytes(b)
+
+
+# ---------------------------------------------------------------------------------------------------------------------
+# TLS records: trees of length-prefixed vectors (no tags).  VNode.pre = number of length octets (0: fixed bytes).
+class VNode:
+    __slots__ = ("pre", "val", "kids", "lenval", "extra", "orig_len", "anc")
+
+    def __init__(self, pre, val=None, kids=None):
+        self.pre, self.val, self.kids = pre, val, kids
+        self.lenval = None; self.extra = b""; self.orig_len = 0; self.anc = False
+
+
+def _vec(b, off, pre):
+    n = int.from_bytes(b[off:off + pre], "big")
+    if off + pre + n > len(b):
+        raise ValueError("vec")
+    return b[off + pre:off + pre + n], off + pre + n
+
+
+def _exts(b):
+    kids, off = [], 0
+    while off < len(b):
+        if off + 4 > len(b): raise ValueError("ext")
+        data, nxt = _vec(b, off + 2, 2)
+        kids.append(VNode(0, None, [VNode(0, bytes(b[off:off + 2])), VNode(2, bytes(data))]))
+        off = nxt
+    return kids
+
+
+def parse_tls(rec):
+    """record -> VNode tree, or None when the layout is not one of the handled handshake messages"""
+    try:
+        if len(rec) < 9 or rec[0] != 22:
+            return None
+        body, end = _vec(rec, 3, 2)
+        if end != len(rec): return None
+        ht = body[0]
+        hb, hend = _vec(body, 1, 3)
+        if hend != len(body): return None
+        fields = []
+        if ht in (1, 2):
+            off = 34
+            fields.append(VNode(0, bytes(hb[:34])))
+            sid, off = _vec(hb, off, 1); fields.append(VNode(1, bytes(sid)))
+            if ht == 1:
+                cs, off = _vec(hb, off, 2); fields.append(VNode(2, bytes(cs)))
+                cm, off = _vec(hb, off, 1); fields.append(VNode(1, bytes(cm)))
+            else:
+                fields.append(VNode(0, bytes(hb[off:off + 3]))); off += 3
+            if off < len(hb):
+                ex, off2 = _vec(hb, off, 2)
+                fields.append(VNode(2, None, _exts(ex)))
+                if off2 != len(hb): return None
+        elif ht == 11:
+            off = 0
+            lst, off2 = _vec(hb, 0, 3)
+            if off2 == len(hb):                      # TLS 1.2 / TLCP: certs<3> of cert<3>
+                kids, o = [], 0
+                while o < len(lst):
+                    c, o = _vec(lst, o, 3); kids.append(VNode(3, bytes(c)))
+                fields.append(VNode(3, None, kids))
+            else:                                    # TLS 1.3: context<1> list<3> of (cert<3> exts<2>)
+                ctx, off = _vec(hb, 0, 1); fields.append(VNode(1, bytes(ctx)))
+                lst, off2 = _vec(hb, off, 3)
+                if off2 != len(hb): return None
+                kids, o = [], 0
+                while o < len(lst):
+                    c, o = _vec(lst, o, 3); e, o = _vec(lst, o, 2)
+                    kids.append(VNode(0, None, [VNode(3, bytes(c)), VNode(2, bytes(e))]))
+                fields.append(VNode(3, None, kids))
+        elif ht == 8:                                # EncryptedExtensions
+            ex, off2 = _vec(hb, 0, 2)
+            if off2 != len(hb): return None
+            fields.append(VNode(2, None, _exts(ex)))
+        else:
+            return None
+        hs = VNode(0, None, [VNode(0, bytes([ht])), VNode(3, None, fields)])
+        root = VNode(0, None, [VNode(0, bytes(rec[:3])), VNode(2, None, [hs])])
+        return root
+    except (ValueError, IndexError):
+        return None
+
+
+def vencode(n, fix):
+    body = (b"".join(vencode(k, fix) for k in n.kids) if n.kids is not None else n.val) + n.extra
+    if n.pre == 0:
+        return body
+    if n.lenval is not None: l = n.lenval
+    elif n.anc and not fix: l = n.orig_len
+    else: l = len(body)
+    return (l & ((1 << (8 * n.pre)) - 1)).to_bytes(n.pre, "big") + body
+
+
+def _vlen(n):
+    return len((b"".join(vencode(k, True) for k in n.kids) if n.kids is not None else n.val))
+
+
+def apply_tls(seed, prog):
+    root = parse_tls(seed)
+    if root is None:
+        return None
+    def setorig(n):
+        n.orig_len = _vlen(n)
+        for k in (n.kids or []): setorig(k)
+    setorig(root)
+    fixall = True
+    for slot, kind, arg, fix in prog:
+        flat = preorder([root])
+        node, parent, idx = flat[min(len(flat) - 1, slot * (len(flat) - 1) // SLOTMAX)]
+        fixall = fixall and fix
+        sibs = parent.kids if parent is not None else None
+        if kind == "len+": node.lenval = node.orig_len + arg
+        elif kind == "len-": node.lenval = max(0, node.orig_len - arg)
+        elif kind == "len=": node.lenval = 0xffffffff if arg == -1 else arg
+        elif kind in ("dup", "rep") and sibs is not None:
+            for _ in range(1 if kind == "dup" else arg): sibs.insert(idx, copy.deepcopy(node))
+        elif kind == "drop" and sibs is not None and len(sibs) > 1: del sibs[idx]
+        elif kind == "swap" and sibs is not None and idx + 1 < len(sibs): sibs[idx], sibs[idx + 1] = sibs[idx + 1], sibs[idx]
+        elif kind == "empty":
+            if node.kids is not None: node.kids = []
+            else: node.val = b""
+        elif kind == "grow": node.extra += (b"\x00\xff" * (arg // 2 + 1))[:arg]
+        elif kind == "fill":
+            def fill(n):
+                if n.kids is not None:
+                    for k in n.kids: fill(k)
+                else: n.val = bytes([arg]) * len(n.val)
+            fill(node)
+        else:
+            return None
+        def mark(n):
+            if n is node: return True
+            for k in (n.kids or []):
+                if mark(k):
+                    n.anc = True
+                    return True
+            return False
+        mark(root)
+    out = vencode(root, fixall)
+    return out if len(out) <= 5 + 18432 else None
